@@ -93,6 +93,18 @@ def resizeNearest (src : List (List Nat)) (H W : Nat) : List (List Nat) :=
 def labelsFor (labels : List (List Nat)) (H W : Nat) : List (List Nat) :=
   if labels.length = H ∧ (listGetD labels 0 []).length = W then labels else resizeNearest labels H W
 
+/-- `arr.shape[:2]` of a row-major map -/
+def shapeOf (m : List (List Nat)) : Nat × Nat := (m.length, (listGetD m 0 []).length)
+
+/-- one call of `HeterogeneousLinearModel` with a signal of shape `H × W`: the cached label map afterwards
+(`if img.shape[:2] != cached.shape[:2]: cached = cv2.resize(self.labels, …)` — from the ORIGINAL labels) -/
+def cacheStep (orig cached : List (List Nat)) (H W : Nat) : List (List Nat) :=
+  if shapeOf cached = (H, W) then cached else resizeNearest orig H W
+
+/-- the cached label map after a sequence of calls (initially a copy of the labels) -/
+def cacheRun (orig : List (List Nat)) (shapes : List (Nat × Nat)) : List (List Nat) :=
+  shapes.foldl (fun c hw => cacheStep orig c hw.1 hw.2) orig
+
 /-! ### parameter routing -/
 
 def M.numParams : M → Nat
